@@ -3,7 +3,7 @@
 # Applies the seeded change to a scratch worktree of /repo (never to /repo itself), runs the
 # demonstration before/after, runs the named quick checks against the scratch tree through
 # VERIF_REPO, and removes the worktree.
-SEED="$1"; shift
+SEED="$(cd "$1" && pwd)"; shift
 W=/dev/shm/wseed_$$
 git -C /repo worktree add -q "$W" HEAD || exit 2
 if ! git -C "$W" apply "$SEED/patch.diff"; then echo "PATCH DOES NOT APPLY"; git -C /repo worktree remove --force "$W"; exit 2; fi
